@@ -155,6 +155,14 @@ fn explore_program(prop: &str, idx: usize, e: &Entry, first: Option<usize>, alph
                 let obs2 = (e.run)(&src2);
                 judge(prop, idx, &e.prog, &items, &src2, &exp, &obs2, t);
             }
+            // an empty attribute of the receiver's name in front contributes nothing
+            if e.prog.root_trait() != Trait::FromMeta && !items.is_empty() && items.len() < maxlen.max(2) {
+                let name = e.prog.st(e.prog.root).attrs[0].clone();
+                let (prefix, suffix) = element_wrapper(e.prog.root_trait());
+                let src3 = format!("{prefix}#[{name}()] #[{name}({})] #[{name}()] {suffix}", vmodel::input::items_text(&items));
+                let obs3 = (e.run)(&src3);
+                judge(prop, idx, &e.prog, &items, &src3, &exp, &obs3, t);
+            }
         }
         let obs = (e.run)(&src);
         judge(prop, idx, &e.prog, &items, &src, &exp, &obs, t);
